@@ -2,7 +2,7 @@
    The model (Machine.v, Merge.v, ArrayShift.v) is executable Gallina; its extraction is run against the real
    momo code on every check (props/C10/harness.cpp vs ocaml/driver.ml). *)
 From Coq Require Import ZArith List Permutation.
-From C10 Require Import Machine Merge MergeProofs ArrayShift ArrayProofs MapModel MapProofs FastMerge FastPtr FastPtrProofs BulkOps HolderRefine GenRefine ProtoSyntaxC10 ProtoMergeC10.
+From C10 Require Import Machine Merge MergeProofs ArrayShift ArrayProofs MapModel MapProofs FastMerge FastPtr FastPtrProofs BulkOps HolderRefine RefineOfGen ProtoSyntaxC10 ProtoMergeC10.
 From MomoCommon Require GenPrelude.
 From C10 Require Gen_Holder Gen_HolderTree Gen_StdInsert Gen_StdInsertU Gen_StdInsertN Gen_MergeTo Gen_TreeSwap Gen_ExtraCheckT Gen_ExtraCheckH Gen_MergeProto.
 Notation GOk := GenPrelude.Ok. Notation GStuck := GenPrelude.Stuck. Notation GExn := GenPrelude.Exn.
@@ -397,6 +397,23 @@ Theorem C10_fast_merge_success_sweep_partial : sweep_success = true.
 Proof. exact sweep_success_ok. Qed.
 Print Assumptions C10_fast_merge_success_sweep_partial.
 
+(* NON-VACUITY of the fast-merge failure theorems (their hypothesis is "... = (w', FThrow h')"): FThrow is reachable.  On every
+   geometry of the sweep above (tree 1 a single leaf, both directions) a failing first copy of a copy-only element (the
+   separator relocation), and -- whenever the first climbing step needs a node -- a failing first allocation, make
+   merge_fast_ptr return FThrow, the trace contains the failure event, and both trees pass the structural validator with
+   their original contents.  FBroken (fuel exhaustion / malformed heap) is a different constructor. *)
+Theorem C10_fast_merge_failure_sweep_partial : sweep_failure = true.
+Proof. exact sweep_failure_ok. Qed.
+Print Assumptions C10_fast_merge_failure_sweep_partial.
+
+Theorem C10_fast_merge_failure_is_reachable :
+  (exists h root1 root2 start2 leaf1 swap maxcap fuel fresh w' h',
+     merge_fast_ptr CPY (W [] [] [true] []) h root1 root2 start2 leaf1 swap maxcap fuel fresh = (w', FThrow h')) /\
+  (exists h root1 root2 start2 leaf1 swap maxcap fuel fresh w' h',
+     merge_fast_ptr NTM (W [] [true] [] []) h root1 root2 start2 leaf1 swap maxcap fuel fresh = (w', FThrow h')).
+Proof. exact merge_fast_fthrow_reachable. Qed.
+Print Assumptions C10_fast_merge_failure_is_reachable.
+
 (* ---- multi-element Insert(range / initializer list) and Remove(predicate) of hash containers (BulkOps.v),
    for every schedule, category and step -- hence also in the state left behind by an exception *)
 (* the container holds its original items, untouched and in place, followed by copies of arguments: a subset of
@@ -566,7 +583,12 @@ Print Assumptions C10_std_insert_hint_model_is_the_same_decision.
 (* ---- GENERATED TreeSet::MergeTo(TreeSet&) (Gen_MergeTo.v): for every pair of trees (fewer than 2^32 items together), key
    policy, manager relation and traits kind it takes the path of the hand model (nothing / pvMergeTo / pvMergeToLinear / Swap /
    pvMergeFast), joins in the same order (the ordering tests of 103bce4) and hands the fields over as the model says: on the
-   fast path the source count becomes 0 and its root null, the destination count is the sum and its root the joined root *)
+   fast path the source count becomes 0 and its root null, the destination count is the sum and its root the joined root.
+   READ THIS AS: gen_merge_to (RefineOfGen.v, hand-written) is the generated Gen_MergeTo.MergeTo INSTANTIATED with marker
+   constants, not with trees: the source root field starts as the marker 7 and the destination root as 8 (so "r1 = 7, r2 = 8"
+   means "both root fields untouched by MergeTo itself"), pvMergeFast is the marker function returning 21 / 12 for the two
+   join orders, the paths are coded 0..4, and the ordering tests / emptiness tests are computed from the key-sorted lists.
+   The theorem is about which calls the generated dispatch makes and what it writes to the four fields, nothing deeper *)
 Theorem C10_gen_merge_to_refines_dispatch :
   forall multi eqm emptytr src dst, Z.of_nat (length src) + Z.of_nat (length dst) < 2 ^ 32 ->
     let '(c1, r1, c2, r2, path) := gen_merge_to multi eqm emptytr src dst in
@@ -625,7 +647,7 @@ Print Assumptions C10_gen_extra_check_tolerates_throwing_functor_tree.
 Theorem C10_insert_crt_never_aborts_on_throwing_functor :
   forall (S : Type) (after_add : S) pos_eqb deref find_ key_ pos,
     insert_crt_checked after_add (Gen_ExtraCheckH.pvExtraCheck true pos_eqb deref find_ key_ pos) = GOk after_add.
-Proof. exact @insert_crt_never_aborts_on_throwing_functor. Qed.
+Proof. exact insert_crt_never_aborts_on_throwing_functor. Qed.
 Print Assumptions C10_insert_crt_never_aborts_on_throwing_functor.
 
 Theorem C10_gen_extra_check_is_the_check_hash :
@@ -684,7 +706,12 @@ Theorem C10_proto_not_advancing_refuted :
 Proof. exact gstep_not_advancing_makes_no_progress. Qed.
 Print Assumptions C10_proto_not_advancing_refuted.
 
-(* the trees of pvExtract (both containers) and pvMergeToLinear are the trees the hand model was written from *)
+(* the trees of pvExtract (both containers) and pvMergeToLinear are the trees the hand model was written from.
+   READ THIS AS a change detector only: expected_* are HAND-TYPED trees (ProtoMergeC10.v); the theorems are syntactic
+   equalities "dumped tree = hand-typed tree" with no semantics attached to either side.  Likewise the *_loop_facts theorems
+   above go through a hand-written structural recogniser that returns FIVE booleans (creator extracts / key of the current
+   item is looked up / InsertCrt's `inserted` decides / ++iter on refusal / nothing else in the body); only gstep over those
+   five booleans -- not the dumped tree -- is related to the hand model's hstep *)
 Theorem C10_proto_hash_pvExtract_tree : Gen_MergeProto.hash_pvExtract = expected_hash_pvExtract.
 Proof. exact hash_pvExtract_is_the_modelled_tree. Qed.
 Print Assumptions C10_proto_hash_pvExtract_tree.
